@@ -76,6 +76,5 @@ size_t nondet_size_t(void);
   __CPROVER_assigns() \
   __CPROVER_ensures(__CPROVER_return_value == spec_representable(offset, SPEC_OT_SIGNED, num_bits, 0))
 #define CONTRACT_Support_is_int_n_32_i64 \
-  __CPROVER_requires(__CPROVER_is_fresh(x, sizeof(*x))) \
   __CPROVER_assigns() \
-  __CPROVER_ensures(__CPROVER_return_value == (*x >= -2147483648L && *x <= 2147483647L))
+  __CPROVER_ensures(__CPROVER_return_value == (x >= -2147483648L && x <= 2147483647L))
